@@ -58,7 +58,7 @@ BAD = {'rnd': ['nearest-even', 'Around', 'TRUNC', ' floor', 'ceil\n', None, 3, '
        'ovf': ['clip', 'Wrap', 'SATURATE', ' wrap', 'saturate ', None, 1, '']}
 
 
-def run_behaviour(fx, np, bid, h, variant=0):
+def run_behaviour(fx, np, bid, h, variant=0, probe=True):
     """h: list of action dicts.  Returns the list of trace rows (one per call)."""
     Fxp = fx.Fxp
     heap = {n: None for n in NAMES}
@@ -71,7 +71,11 @@ def run_behaviour(fx, np, bid, h, variant=0):
         obj.callbacks = [r]
         rec[name] = r
 
-    for i, a in enumerate(h, 1):
+    steps = list(h)
+    i = 0
+    while i < len(steps):
+        a = steps[i]
+        i += 1
         act = a['act']
         raised, err, cont_ok = False, '', True
         tgt = a.get('x') if act in ('New', 'Store', 'SetItem', 'SetItemFxp', 'Resize', 'Reset', 'SetCfg', 'SetCfgBad', 'Assign', 'Drop') else \
@@ -232,4 +236,29 @@ def run_behaviour(fx, np, bid, h, variant=0):
                      'route': act, 'carrier': 'heap'})
         if raised and act != 'SetCfgBad':
             break
+        if i == len(h) and probe:
+            steps += _probe_suffix(np, heap, tgt, bid + variant)
     return rows
+
+
+def _probe_suffix(np, heap, tgt, salt):
+    """INTERFERENCE PROBE appended to a behaviour: the object the last call was about is reconfigured and written with a value
+    that raises flags (two more actions of the specification).  The model covers every TRANSITION once, but the real objects
+    carry their whole history: whatever route built this object, mutating it now must not show in any other object."""
+    o = heap.get(tgt)
+    if o is None or o.val is None:
+        return []
+    try:
+        n = int(np.size(o.val))
+        if n not in (1, 2) or np.ndim(o.val) != 1:
+            return []
+        w, sg = int(o.n_word), bool(o.signed)
+        hi = (1 << (w - 1)) - 1 if sg else (1 << w) - 1
+        lo = -(1 << (w - 1)) if sg else 0
+        rnd = 'around' if o.config.rounding != 'around' else 'floor'
+        ovf = 'wrap' if o.config.overflow != 'wrap' else 'saturate'
+        ks = [4 * hi + 6, 4 * lo - 5][:n] if salt % 2 else [2, 4 * hi + 6][:n]
+        return [{'act': 'SetCfg', 'x': tgt, 'key': 'rnd', 'val': rnd}, {'act': 'SetCfg', 'x': tgt, 'key': 'ovf', 'val': ovf},
+                {'act': 'Store', 'x': tgt, 'ks': ks}]
+    except Exception:
+        return []
